@@ -280,3 +280,15 @@ Definition sstep (f : fan) (ss : list mstate) (sl : slabel) : list mstate :=
   end.
 
 Definition srun (f : fan) (sls : list slabel) : list mstate := fold_left (sstep f) sls [].
+
+(* ---- the capability a consumer advertises, as built by the real constructors ---------------------- *)
+(* consumer/internal NewBaseImpl(options...): Cap starts as MutatesData=false; the options are applied in the order
+   given and consumer.WithCapabilities(c) overwrites Cap: the LAST WithCapabilities wins.  An option list is modelled
+   by the MutatesData values of its WithCapabilities options, in order. *)
+Definition base_cap (opts : list bool) : bool := fold_left (fun _ b => b) opts false.
+(* processorhelper.fromOptions: the default option WithCapabilities(MutatesData: true) first, then the user's *)
+Definition proc_cap (user : list bool) : bool := base_cap (true :: user).
+(* exporterhelper NewBaseExporter: the user's options, then — when batching is enabled (batcher or queue batch) —
+   WithCapabilities(MutatesData: true) is APPENDED ("Batcher mutates the data") *)
+Definition exp_cap (user : list bool) (batching : bool) : bool :=
+  base_cap (user ++ (if batching then [true] else [])).
